@@ -78,6 +78,18 @@ func HarnessServerWriters() {
 		}
 		var f anyFrame
 		verif.Assert(json.Unmarshal(b, &f) == nil && f.Jsonrpc == "2.0", "every-message-is-one-complete-json-rpc-frame")
+		// and it says what its own call produced: concurrent calls of one method do not mix their arguments
+		if id, ok := f.ID.(float64); ok && f.Method == "" {
+			var r int64
+			switch id {
+			case 2:
+				verif.Assert(json.Unmarshal(f.Result, &r) == nil && r == 6, "response-carries-its-own-calls-result")
+			case 3:
+				verif.Assert(json.Unmarshal(f.Result, &r) == nil && r == 6, "response-carries-its-own-calls-result")
+			case 4:
+				verif.Assert(json.Unmarshal(f.Result, &r) == nil && r == 8, "response-carries-its-own-calls-result")
+			}
+		}
 		got++
 	}
 	monitors("")
